@@ -964,6 +964,8 @@ def _normalise_cases():
         ('imperative result is a bare component', IMP(L('b'), IT(TD(L('a'), L('b')), Gl('S1'))), {}),
         ('two patterns whose component names concatenate to the same text', D(TD(L('a'), L('bc')), Gl('S1'), AND(Q('FORALL', TD(L('ab'), L('c')), Gl('S1'), B('LESSER', L('ab'), L('c'))), AND(B('EQUAL', L('a'), I(1)), B('EQUAL', L('bc'), I(2))))), {}),
         ('an enumerated declaration whose domain binds a name of its first pattern', Q('FORALL', ED(TD(L('a'), L('b')), L('c')), D(L('a'), Gl('S1'), true_of(L('a'))), AND(B('LESSER', L('a'), L('b')), true_of(L('c')))), {}),
+        ('an enumerated declaration whose domain binds the name of its first variable', Q('EXISTS', ED(L('a'), L('b')), D(L('a'), Gl('C1'), true_of(L('a'))), AND(B('EQUAL', L('a'), I(1)), B('EQUAL', L('b'), I(3)))), {}),
+        ('an enumerated declaration of three variables whose domain binds the second', Q('FORALL', ED(L('a'), L('b'), L('c')), D(L('b'), Gl('C1'), true_of(L('b'))), B('IMPLICATION', AND(B('EQUAL', L('a'), I(1)), B('EQUAL', L('b'), I(1))), B('LESSER_OR_EQ', L('b'), L('c')))), {}),
         ('an imperative whose guard block binds a name of a later pattern', IMP(T(L('a'), L('b')), Q('EXISTS', L('a'), Gl('C1'), true_of(L('a'))), IT(TD(L('a'), L('b')), Gl('S1'))), {}),
         ('recursion over a tuple', ('NT_RECURSIVE_FULL', None, [TD(L('a'), L('b')), T(I(0), I(1)), B('LESSER', L('a'), I(3)), T(B('PLUS', L('a'), I(1)), B('MULTIPLY', L('b'), I(2)))]), {}),
         ('short recursion over a tuple', ('NT_RECURSIVE_SHORT', None, [TD(L('a'), L('b')), T(I(0), I(5)), T(L('b'), L('b'))]), {}),
